@@ -179,6 +179,10 @@ def signature(act, hist, d):
     """kind : statement : refusing / shaping rule of ForeignKey.tla [: declared action, where the rule depends on it]"""
     op = hist[-1]["op"]
     name = opname(op).replace("_all", "").replace("_2rows", "")
+    # an earlier ON DELETE CASCADE that removed children: what it leaves behind (row count, index entries of the removed
+    # children) shows in later statements; the history class is part of the signature
+    if act == "cascade" and any(h["op"]["k"] == "del_p" and why(act, hist[:i + 1]) == "referenced" and h["ok"] for i, h in enumerate(hist[:-1])):
+        return "fk:%s:%s:after_cascade_delete" % (d["kind"], name)
     return "fk:%s:%s:%s%s" % (d["kind"], name, why(act, hist), ":on_delete_" + act if op["k"] == "del_p" else "")
 
 
